@@ -340,7 +340,31 @@ def r20_5(F, R):
     some_ret = [bi for bi, b in enumerate(gi.blocks) for st in b["s"] if st["k"] == "=" and st["lhs"]["l"] == 0 and st["rv"]["k"] == "agg"
                 and st["rv"].get("variant") == "Some"]
     loc = "%s:%d" % (gi.file, gi.line)
-    if not eqs or not res or not some_ret:
+    # the iterator form: `successors(first, |n| n.next..).map(|n| n.key).find(|&k| self.resolve(k).unwrap() == s)`
+    closures = [F.fns[c] for c in F.closures_of(gi.id)]
+    finds = [bi for bi, t in gi.calls() if strip_generics(callee_name(t) or "").split("::")[-1] in ("find", "find_map", "position", "any")]
+    succ = [bi for bi, t in gi.calls() if strip_generics(callee_name(t) or "").endswith("iter::successors") or strip_generics(callee_name(t) or "").endswith("sources::successors::successors")]
+
+    def cl_has(pred):
+        return [g for g in closures if any(pred(g, tt) for _, tt in g.calls())]
+    cmp_cl = cl_has(lambda g, tt: strip_generics(callee_name(tt) or "").split("::")[-1] in ("eq", "ne") and any(
+        "str" in g.local_ty(op_place(a)["l"]) for a in tt["args"] if op_place(a) is not None))
+    res_cl = cl_has(lambda g, tt: strip_generics(callee_name(tt) or "").endswith("Interner::resolve"))
+    next_cl = [g for g in closures for b in g.blocks for st in b["s"] if st["k"] == "=" and st["rv"]["k"] in ("ref", "discr", "use")
+               and "next" in (field_path(st["rv"].get("pl") or op_place(st["rv"].get("op", {})) or {"l": 0, "p": []}) or [])]
+    iterator_form = bool(finds and succ and not some_ret)
+    if iterator_form:
+        both = [g for g in cmp_cl if g in res_cl]
+        if both:
+            R.ok("R20.5", "get_internal/compare", "the key is selected by a find() whose predicate resolves the key and compares the strings", loc, how="callee")
+        else:
+            R.violation("R20.5", "get_internal/compare", "get_internal selects a key with find() but its predicate does not compare the resolved string with the "
+                        "query (equal hashes do not imply equal strings)", loc)
+        if next_cl:
+            R.ok("R20.5", "get_internal/walk", "iter::successors follows the `next` link", loc, how="callee")
+        else:
+            R.violation("R20.5", "get_internal/walk", "get_internal does not walk the whole collision chain (successors() does not follow `next`)", loc)
+    elif not eqs or not res or not some_ret:
         R.violation("R20.5", "get_internal/compare", "get_internal has %d string comparisons, %d resolve calls, %d `Some(key)` results: a key must only be returned "
                     "after its resolved string was compared with the query (equal hashes do not imply equal strings)" % (len(eqs), len(res), len(some_ret)), loc)
     else:
@@ -352,7 +376,9 @@ def r20_5(F, R):
             R.ok("R20.5", "get_internal/compare", "every Some(key) is dominated by resolve + string equality", loc, how="dominator")
     nxt = [bi for bi, b in enumerate(gi.blocks) for st in b["s"] if st["k"] == "=" and st["rv"]["k"] in ("ref", "discr", "use")
            and "next" in (field_path(st["rv"].get("pl") or op_place(st["rv"].get("op", {})) or {"l": 0, "p": []}) or [])]
-    if nxt and any(_in_cycle_avoiding(gi, b, set()) for b in nxt):
+    if iterator_form:
+        pass
+    elif nxt and any(_in_cycle_avoiding(gi, b, set()) for b in nxt):
         R.ok("R20.5", "get_internal/walk", "the `next` link is followed inside a loop", loc, how="cycle")
     else:
         R.violation("R20.5", "get_internal/walk", "get_internal does not walk the whole collision chain (no loop over `next`): a string whose hash collides with "
